@@ -41,6 +41,14 @@ theorem bind_pure_mapW {β γ} (g : β → γ) (x : W β) :
 theorem values_single (x : Int) (srcs : List RO) (o : Bool) :
     [RO.mk (some x) srcs o].filterMap RO.value = [x] := rfl
 
+theorem chainRO_value (ops : List (Int → Int)) (a : RO) (v : Int) (ha : a.value = some v) :
+    (chainRO ops a).value = some (ops.foldl (fun v f => f v) v) := by
+  induction ops generalizing a v with
+  | nil => simpa [chainRO] using ha
+  | cons f fs ih =>
+    rw [chainRO, List.foldl_cons]
+    exact ih _ _ (by rw [ha]; rfl)
+
 theorem bind_congr_W {β γ} (x : W β) (f g : β → W γ) (h : ∀ a, f a = g a) :
     (x >>= f) = (x >>= g) := by
   have : f = g := funext h
@@ -430,6 +438,13 @@ theorem values_rollW : ∀ (r : RTree), mapW RollRec.values (rollW mk r) = den r
     intro rs
     rw [mapW_pure, hmk, values_single, sumOperand_value]
     rfl
+  | .unChain ops s => by
+    rw [rollW, den, mapW_bind, ← values_rollW s, bind_mapW]
+    apply bind_congr_W
+    intro rs
+    rw [mapW_pure, hmk]
+    have h := chainRO_value ops (sumOperand rs) _ (sumOperand_value rs)
+    simp only [List.filterMap_cons, List.filterMap_nil, h]
   | .filt p srcs => by
     rw [rollW, den, mapW_bind, ← values_rollAllW srcs, bind_mapW]
     apply bind_congr_W
